@@ -126,7 +126,34 @@ func TestVerifBounded_C11_Histories(t *testing.T) {
 			}
 		}
 	}
-	fmt.Printf("BOUNDED name=C11.histories cases=%d nontrivial=%d exhaustive=true domain=%q\n", cases, nontrivial, "3 cycles per sorter, chunk sizes {1,2,4}, per-cycle counts {0,1,c-1,c,c+1,3c+1}^2, partial/full first drain, AutoClear on/off, int and struct elements with duplicate keys, non-concurrent mode")
+	// chunk size 0 (accepted by New): one value pushed, finalised and pulled; a recorded finding
+	func() {
+		cases++
+		m, err := New(verifKey(0), "verif_", "", 0, false)
+		if err != nil {
+			return // rejecting the size is fine
+		}
+		defer m.CleanUp()
+		defer func() {
+			if r := recover(); r != nil {
+				fmt.Printf("FINDING id=chunk-size-zero cases=1 example=%q\n", fmt.Sprintf("New(..., chunkSize 0, false), Push(7), Finalise, Pull: panic: %v", r))
+			}
+		}()
+		if err := m.Push(verifKey(7)); err != nil {
+			t.Fatalf("chunk size 0: push: %v", err)
+		}
+		if err := m.Finalise(); err != nil {
+			t.Fatalf("chunk size 0: finalise: %v", err)
+		}
+		var v verifKey
+		if err := m.Pull(&v); err != nil || v != 7 {
+			t.Fatalf("chunk size 0: pulled %v, %v; pushed 7", v, err)
+		}
+		if err := m.Pull(&v); err != io.EOF {
+			t.Fatalf("chunk size 0: second pull: %v, want io.EOF", err)
+		}
+	}()
+	fmt.Printf("BOUNDED name=C11.histories cases=%d nontrivial=%d exhaustive=true domain=%q\n", cases, nontrivial, "3 cycles per sorter, chunk sizes {1,2,4} (plus one value through chunk size 0), per-cycle counts {0,1,c-1,c,c+1,3c+1}^2, partial/full first drain, AutoClear on/off, int and struct elements with duplicate keys, non-concurrent mode")
 }
 
 // TestVerifBounded_C13_Residue: nothing is left in the file system.
